@@ -16,6 +16,9 @@ Check C14_small_number : forall a n t, WF (hp a) -> denote (hp a) n = Some t ->
 Check C14_fits_in_small_atom : forall b v, wf_bytes b = true ->
   (fits_in_small_atom b = Some v <-> b = bytes_of_int (Z.of_N v) /\ v < 2 ^ 26).
 Check C14_number : forall a n b, denote (hp a) n = Some (Atom b) -> number a n = Ok (int_of_bytes b).
+Check C14_atom_eq : forall a x y bx by_, WF (hp a) ->
+  denote (hp a) x = Some (Atom bx) -> denote (hp a) y = Some (Atom by_) ->
+  atom_eq a x y = Ok (bytes_eqb bx by_).
 Check C14_enc_number : forall a z, AOK a -> stores a (new_number a z) z.
 Check C14_enc_u64 : forall a v, AOK a -> v < 2 ^ 64 -> stores a (new_u64 a v) (Z.of_N v).
 Check C14_enc_i64 : forall a z, AOK a -> (- 2 ^ 63 <= z < 2 ^ 63)%Z -> stores a (new_i64 a z) z.
